@@ -84,7 +84,8 @@ def make_child(kind, idx, s, e, shared_name=None):
         # coding isoform on the left part, non-coding two-exon isoform spanning the whole gene
         gc = [
             {"id": cid + "a", "ex": [[s, m]], "st": "+", "cds": [[s, m]], "fr": [0]},
-            {"id": cid + "b", "ex": _split_blocks(s, e), "st": "-", "cds": None, "fr": None},
+            # (the NON-coding isoform is the one the data source flags as primary: the gene is coding all the same)
+            {"id": cid + "b", "ex": _split_blocks(s, e), "st": "-", "cds": None, "fr": None, "prim": True},
         ]
         if L == 1:
             gc[1]["st"] = "-"
@@ -219,6 +220,8 @@ def build_child(child, parent):
         txs = []
         for g in child["gc"]:
             kw = dict(transcript_id=g["id"], sequence_name="chrV")
+            if g.get("prim"):
+                kw["is_primary_tx"] = True
             if g.get("cds"):
                 txs.append(lib.mk_tx(g["ex"], g["st"], g["cds"], g["fr"], parent, **kw))
             else:
